@@ -38,11 +38,11 @@ func WriteReplay(vdir, prop string, h *Harness, v *Violation) (string, error) {
 	if err := os.MkdirAll(dir, 0o755); err != nil {
 		return "", err
 	}
-	files, _ := filepath.Glob(filepath.Join(vdir, "harness", prop, "*.go"))
+	files, _ := filepath.Glob(filepath.Join(vdir, "harness", "C*", "*.go"))
 	var mine []string
 	for _, f := range files {
 		src, err := os.ReadFile(f)
-		if err == nil && bytes.Contains(src, []byte("//verif:pkg "+h.PkgDir+"\n")) {
+		if err == nil && bytes.Contains(src, []byte("//verif:pkg "+h.PkgDir+"\n")) && (filepath.Dir(f) == filepath.Dir(h.File)) {
 			mine = append(mine, f)
 		}
 	}
